@@ -86,28 +86,6 @@ def fam_b(case, fl):
     return _except_name(case, fl) and not any(fl["name"] in d for d in fl.get("ns", []))
 
 
-def fam_b4(case, fl):
-    """the name of an `except … as n` clause that the program ALSO binds elsewhere (assignment, import, def, class, loop
-    or with target …): since a21b6de the analysis puts the binding that preceded the handler back after it (the handler
-    may not run), so when the handler does run — and Python unbinds n — a later read is not reported"""
-    if not _except_name(case, fl) or any(fl["name"] in d for d in fl.get("ns", [])):
-        return False
-    import ast as _ast
-    try:
-        tree = _ast.parse(fl["src"])
-    except SyntaxError:
-        return False
-    n = fl["name"]
-    for x in _ast.walk(tree):
-        if isinstance(x, _ast.Name) and x.id == n and isinstance(x.ctx, _ast.Store):
-            return True
-        if isinstance(x, _ast.alias) and (x.asname or x.name.split(".")[0]) == n:
-            return True
-        if isinstance(x, (_ast.FunctionDef, _ast.AsyncFunctionDef, _ast.ClassDef)) and x.name == n:
-            return True
-    return False
-
-
 def fam_c(case, fl):
     """augmented assignment whose target is the plain name n"""
     return _unsound(fl) and any(s[0] == "augAssign" and s[1] == ["name", fl["name"]] for s in _stmts(case))
@@ -293,7 +271,7 @@ def fam_code_imprecise(case, fl):
 
 FAMILIES = dict(classCompRead=fam_a, exceptNameAfter=fam_b, augUnbound=fam_c, classNameRemoved=fam_d,
                 unexecutedBinding=fam_e, targetInHeader=fam_f, annAssignTarget=fam_g, attrStoreUnbound=fam_i,
-                paramInAnnotation=fam_j, compVarInOwnIterable=fam_l, exceptNameInCallerNs=fam_b2, exceptNameReadInFunction=fam_b3, exceptNameRestored=fam_b4, importSideEffect=fam_imp,
+                paramInAnnotation=fam_j, compVarInOwnIterable=fam_l, exceptNameInCallerNs=fam_b2, exceptNameReadInFunction=fam_b3, importSideEffect=fam_imp,
                 codeStoreExists=fam_code_bound, codeAttrStore=fam_code_attr, codeImprecise=fam_code_imprecise)
 
 
